@@ -1905,6 +1905,7 @@ class UserSpaceImpl(*_user_space_impl_base):
             if name not in selfdict:
 
                 if attr == "cells":
+                    self.clear_subs_rootitems()     # ItemSpaces hold copies
                     selfdict[name] = UserCellsImpl(
                         space=self, name=name, formula=None,
                         is_derived=True)
